@@ -9,7 +9,7 @@ set_option linter.unusedSimpArgs false
 set_option linter.unusedVariables false
 namespace Upnp.C04
 open Upnp PyDict Upnp.C03 Upnp.C16
-variable {σ : Type} [DecidableEq σ] (ipv : σ → Option Nat) (skip : σ → Bool) (src : σ)
+variable {σ : Type} [DecidableEq σ] (ipv : σ → Option Nat) (skip : σ → Bool) (src : σ) (mode : CbMode)
 
 theorem lookOf_restored (s1 : Tracker σ) (u ty : σ) (d d' : Dev σ) (nx : Option Int) :
     lookOf (⟨set (set s1.devices u d) u d', nx⟩ : Tracker σ) (some u) (some ty) =
@@ -46,7 +46,7 @@ theorem lookOf_known (s : Tracker σ) (u ty : σ) (d : Dev σ) (h : get? s.devic
 
 theorem search_sighting_ok (le : σ → σ → Bool) {s : Tracker σ} (hi : Inv s) (m : Msg σ) (hw : m.wf = true)
     (hk : m.kind = .search) (u loc ty : σ) (hs : m.sighting? = some (u, loc)) (hty : m.ty = some ty) :
-    stepOk ipv skip src (.msg m) (snapOf le s) (modelObs ipv skip src s (.msg m)) = true := by
+    stepOk ipv skip src mode (.msg m) (snapOf le s) (modelObs ipv skip src mode s (.msg m)) = true := by
   have hu : m.udn = some u ∧ m.loc = some loc ∧ m.locOk = true := by
     unfold Msg.sighting? at hs
     simp only [hk] at hs
@@ -100,7 +100,7 @@ theorem search_sighting_ok (le : σ → σ → Bool) {s : Tracker σ} (hi : Inv 
 
 theorem alive_sighting_ok (le : σ → σ → Bool) {s : Tracker σ} (hi : Inv s) (m : Msg σ) (hw : m.wf = true)
     (hk : m.kind = .alive) (u loc ty : σ) (hs : m.sighting? = some (u, loc)) (hty : m.ty = some ty) :
-    stepOk ipv skip src (.msg m) (snapOf le s) (modelObs ipv skip src s (.msg m)) = true := by
+    stepOk ipv skip src mode (.msg m) (snapOf le s) (modelObs ipv skip src mode s (.msg m)) = true := by
   have hu : m.udn = some u ∧ m.loc = some loc ∧ m.locOk = true := by
     unfold Msg.sighting? at hs
     simp only [hk] at hs
@@ -158,7 +158,7 @@ theorem alive_sighting_ok (le : σ → σ → Bool) {s : Tracker σ} (hi : Inv s
 
 theorem update_sighting_ok (le : σ → σ → Bool) {s : Tracker σ} (hi : Inv s) (m : Msg σ) (hw : m.wf = true)
     (hk : m.kind = .update) (u loc ty : σ) (hs : m.sighting? = some (u, loc)) (hty : m.ty = some ty) :
-    stepOk ipv skip src (.msg m) (snapOf le s) (modelObs ipv skip src s (.msg m)) = true := by
+    stepOk ipv skip src mode (.msg m) (snapOf le s) (modelObs ipv skip src mode s (.msg m)) = true := by
   have hu : m.udn = some u ∧ m.loc = some loc ∧ m.locOk = true := by
     unfold Msg.sighting? at hs
     simp only [hk] at hs
@@ -216,7 +216,7 @@ theorem update_sighting_ok (le : σ → σ → Bool) {s : Tracker σ} (hi : Inv 
 
 theorem byebye_ok (le : σ → σ → Bool) {s : Tracker σ} (hi : Inv s) (m : Msg σ) (hw : m.wf = true)
     (hk : m.kind = .byebye) (u ty : σ) (hb : m.byebye? = some u) (hty : m.ty = some ty) :
-    stepOk ipv skip src (.msg m) (snapOf le s) (modelObs ipv skip src s (.msg m)) = true := by
+    stepOk ipv skip src mode (.msg m) (snapOf le s) (modelObs ipv skip src mode s (.msg m)) = true := by
   have hsi : m.sighting? = none := by simp [Msg.sighting?, hk]
   have hu : m.udn = some u := by
     simp only [Msg.byebye?, hk, if_true, hty] at hb
